@@ -200,9 +200,9 @@ def xml_unescape(s):
         return None
 
 
-def standard(ctx, prop, theorems_note, trusted):
+def standard(ctx, prop, theorems_note, trusted, extra_modules=()):
     """prove + build + processes; returns (pr, im, mo)"""
-    pr = core.prove(prop)
+    pr = core.prove(prop, extra_modules=extra_modules)
     core.proof_coverage(ctx, pr, f"lake build MC.Props.{prop} && lake env lean build/audit_{prop}.lean (#print axioms)", trusted)
     core.need_harness(ctx)
     core.need_driver(ctx)
